@@ -109,11 +109,11 @@ func RunGraph(run *report.Run, sys *explore.System, bounds []explore.Bounds, min
 			break
 		}
 	}
-	cov := run.Coverage
 	rep := completed
 	if rep == nil {
 		rep = last
 	}
+	cov := map[string]any{} // this system's own coverage; the run's top-level coverage aggregates all systems
 	cov["states"] = max(1, rep.States)
 	cov["transitions"] = max64(1, rep.Transitions)
 	cov["traces_validated_against_impl"] = rep.Paths
@@ -147,11 +147,47 @@ func RunGraph(run *report.Run, sys *explore.System, bounds []explore.Bounds, min
 	}
 	cov["samples"] = samples
 	cov["workers"] = runtime.NumCPU()
+	aggregateSystems(run, sys.ID, cov)
 	// vacuity self-check: a run in which fewer than minOutcomes outcome classes occurred did not exercise the oracle
 	if len(rep.Outcomes) < minOutcomes && len(run.Viols) == 0 && !rep.CapHit && !last.CapHit {
 		fmt.Fprintf(os.Stderr, "HARNESS ERROR: vacuous exploration for %s: only %d outcome classes %v\n", sys.ID, len(rep.Outcomes), rep.Outcomes)
 		world.CleanScratch()
 		os.Exit(2)
+	}
+}
+
+// aggregateSystems records one explored system under coverage.systems and recomputes the run's top-level figures:
+// sums of states / transitions / traces over all systems, exhaustive = all exhaustive, cap_hit = any; depth and
+// deviation bound, alphabet and samples are those of the first (primary) system.
+func aggregateSystems(run *report.Run, id string, sub map[string]any) {
+	top := run.Coverage
+	systems, _ := top["systems"].(map[string]any)
+	if systems == nil {
+		systems = map[string]any{}
+	}
+	order, _ := top["system_order"].([]string)
+	if _, dup := systems[id]; !dup {
+		order = append(order, id)
+	}
+	systems[id] = sub
+	top["systems"], top["system_order"] = systems, order
+	states, trans, traces := 0, int64(0), int64(0)
+	exhaustive, capHit := true, false
+	for _, sid := range order {
+		c := systems[sid].(map[string]any)
+		states += c["states"].(int)
+		trans += c["transitions"].(int64)
+		traces += c["traces_validated_against_impl"].(int64)
+		exhaustive = exhaustive && c["exhaustive"].(bool)
+		capHit = capHit || c["cap_hit"].(bool)
+	}
+	first := systems[order[0]].(map[string]any)
+	top["states"], top["transitions"], top["traces_validated_against_impl"] = states, trans, traces
+	top["exhaustive"], top["cap_hit"] = exhaustive, capHit
+	for _, k := range []string{"depth_completed", "deviation_bound_completed", "alphabet_size", "alphabet", "samples", "outcome_classes", "workers", "capped_bounds"} {
+		if v, ok := first[k]; ok {
+			top[k] = v
+		}
 	}
 }
 
